@@ -36,3 +36,14 @@ let cmd_c11_diag () =
 
 let () = add "c11_cases" cmd_c11_cases; add "c11_malformed" cmd_c11_malformed; add "c11_shapes" cmd_c11_shapes;
   add "c11_one" cmd_c11_one; add "c11_diag" cmd_c11_diag
+
+(* C03: the width specification and the CheckLineLen model *)
+let cmd_width () = let x = rd_str () in wr_z (line_width x)
+let cmd_linelen () =
+  let toks = rd_list (fun () -> let l = rd_z () in let c = rd_z () in
+                       { t_type = []; t_line = l; t_col = c; t_val = None }) in
+  wr_list (fun (l, c) -> wr_z l; wr_z c) (line_len_check [] toks)
+let cmd_blockcomment () =
+  let l0 = rd_z () in let c0 = rd_z () in let v = rd_str () in
+  wr_list wr_z (block_comment_check l0 c0 v)
+let () = add "width" cmd_width; add "linelen" cmd_linelen; add "blockcomment" cmd_blockcomment
